@@ -136,7 +136,7 @@ func runCensus(seed uint64, cas int, tier string) *CensusRes {
 				do(&Op{K: OpRename, H: alias, Name: n, H2: D.FH, Name2: "q"})
 				do(&Op{K: OpRename, H: D.FH, Name: n, H2: alias, Name2: names[0]}) // onto an existing name
 				do(&Op{K: OpRename, H: alias, Name: n, H2: D.FH, Name2: names[len(names)-1]})
-				if C.Kind == KDir {
+				if C.Kind == KDir && (knownOpen("C04", "rename-dir-across-directories") || knownOpen("C04", "rename-dir-into-own-subtree")) {
 					continue // directories stay where they are (open known finding)
 				}
 				// across directories, both directions, to free names and over
@@ -150,6 +150,8 @@ func runCensus(seed uint64, cas int, tier string) *CensusRes {
 					// over an existing target
 					if C.Kind == KReg {
 						do(&Op{K: OpCreate, H: E.FH, Name: "tgt"})
+					} else if C.Kind == KDir {
+						do(&Op{K: OpMkdir, H: E.FH, Name: "tgt"})
 					} else {
 						do(&Op{K: OpSymlink, H: E.FH, Name: "tgt", Target: "t"})
 					}
